@@ -23,7 +23,10 @@ Definition dispatch_solve (have_cpp use_cpp : bool) (p : prec) : backend :=
   if use_cpp && have_cpp then
     match p with PNone => BCpp 0 | PC => BCpp 1 | PR => BCpp 2 | POther => BInvalidArguments end
   else BPython.
-Definition dispatch_matvec (have_cpp use_cpp : bool) : backend := if have_cpp && use_cpp then BCpp 0 else BPython.
+(* _dmrg.py: `if _flag_use_cpp and use_cpp and len(A.N) > 1` - a single core has no bond to sweep over and never reaches dmrg_mv *)
+Definition dispatch_matvec (have_cpp use_cpp : bool) (d : nat) : backend := if have_cpp && use_cpp && Nat.ltb 1 d then BCpp 0 else BPython.
+(* numeric code of a selection, for the correspondence check: 0 = Python, k+1 = C++ entry point with preconditioner code k, 9 = InvalidArguments *)
+Definition backend_code (b : backend) : nat := match b with BPython => 0 | BCpp k => S k | BInvalidArguments => 9 end.
 
 (* bounded domain of the agreement theorem *)
 Fixpoint lists_upto (vals : list Z) (n : nat) : list (list Z) :=
